@@ -109,3 +109,62 @@ package documentstore
 //@   loop 1 invariant forall k Str :: (k in X) ==> (exists p Int :: 0 <= p && p < len($coll) && $coll[p] == k)
 //@   ensures result1 == nil ==> (forall k Str :: (k in X) && filterOK(docOf(X[k])) ==> (exists q Int :: 0 <= q && q < len(result) && result[q] == docOf(X[k])))
 //@   ensures result1 == nil ==> (forall q Int :: 0 <= q && q < len(result) ==> (exists k Str :: (k in X) && filterOK(docOf(X[k])) && result[q] == docOf(X[k])))
+
+// ---- writers: what a successful Put / Delete appends, and the refusal of deleting an absent key ----
+// keyOf / encDoc: the user-supplied key extractor and serialiser are deterministic functions (assumed)
+//@ spec func keyOf(doc Iface) Str
+//@ spec func encDoc(doc Iface) Slice<Int>
+//@ extern field:iface.CreateDocumentDBOptions.KeyExtractor as KeyExtractor(doc) (k, err)
+//@   ensures err == nil ==> k == keyOf(doc)
+//@   modifies nothing
+//@ extern field:iface.CreateDocumentDBOptions.Marshal as Marshal(doc) (data, err)
+//@   ensures err == nil ==> data == encDoc(doc)
+//@   modifies nothing
+
+//@ func (*orbitDBDocumentStore).Put
+//@   props C07
+//@   flag nilcalls
+//@   requires o.docOpts != nil && wf(addr(o.BaseStore)) && o.BaseStore.emitters.evtWrite != nil
+//@   requires statusProgress(o.BaseStore.replicationStatus) <= statusMax(o.BaseStore.replicationStatus)
+//@   ghost L := o.BaseStore.oplog
+//@   ensures result1 == nil ==> typeis(result, "*operation.operation") && ref(result) != 0
+//@   ensures result1 == nil ==> logLen(L) == old(logLen(L)) + 1 && ents(L)[ptr(result, "operation.operation").Entry] && !old(ents(L))[ptr(result, "operation.operation").Entry]
+//@   ensures result1 == nil ==> opKind(ptr(result, "operation.operation").Entry) == "PUT" && opHasKey(ptr(result, "operation.operation").Entry) && opKey(ptr(result, "operation.operation").Entry) == keyOf(document) && opValue(ptr(result, "operation.operation").Entry) == encDoc(document)
+//@   ensures result1 == nil ==> synced(addr(o.BaseStore))
+//@   modifies *
+
+// Delete: a key the index does not hold is refused with an error and nothing is appended.
+//@ func (*orbitDBDocumentStore).Delete
+//@   props C07
+//@   flag nilcalls
+//@   requires wf(addr(o.BaseStore)) && o.BaseStore.emitters.evtWrite != nil
+//@   requires typeis(o.BaseStore.index, "*documentstore.documentIndex") && ref(o.BaseStore.index) != 0
+//@   requires statusProgress(o.BaseStore.replicationStatus) <= statusMax(o.BaseStore.replicationStatus)
+//@   ghost L := o.BaseStore.oplog
+//@   ghost K := key
+//@   ghost present := key in ptr(o.BaseStore.index, "documentstore.documentIndex").index
+//@   ensures !present ==> result1 != nil && logLen(L) == old(logLen(L)) && ents(L) == old(ents(L)) && valsOf(L) == old(valsOf(L))
+//@   ensures result1 == nil ==> present
+//@   ensures result1 == nil ==> logLen(L) == old(logLen(L)) + 1 && ents(L)[ptr(result, "operation.operation").Entry] && !old(ents(L))[ptr(result, "operation.operation").Entry]
+//@   ensures result1 == nil ==> opKind(ptr(result, "operation.operation").Entry) == "DEL" && opHasKey(ptr(result, "operation.operation").Entry) && opKey(ptr(result, "operation.operation").Entry) == K
+//@   modifies *
+
+// PutAll: one PUTALL entry whose batch holds, for every distinct key of the given documents, exactly one
+// member carrying the LAST document given for that key; nothing else is in the batch.
+//@ func (*orbitDBDocumentStore).PutAll
+//@   props C07
+//@   flag nilcalls
+//@   requires o.docOpts != nil && wf(addr(o.BaseStore)) && o.BaseStore.emitters.evtWrite != nil
+//@   requires statusProgress(o.BaseStore.replicationStatus) <= statusMax(o.BaseStore.replicationStatus)
+//@   ghost L := o.BaseStore.oplog
+//@   ghost V := values
+//@   loop 1 invariant toAdd != nil
+//@   loop 1 invariant forall k Str :: (k in toAdd) <==> (exists j Int :: 0 <= j && j < $i && keyOf(V[j]) == k)
+//@   loop 1 invariant forall k Str :: (k in toAdd) ==> (exists w Int :: 0 <= w && w < $i && keyOf(V[w]) == k && toAdd[k] == encDoc(V[w]) && (forall j Int :: w < j && j < $i ==> keyOf(V[j]) != k))
+//@   ensures result1 == nil ==> typeis(result, "*operation.operation") && ref(result) != 0
+//@   ensures result1 == nil ==> logLen(L) == old(logLen(L)) + 1 && ents(L)[ptr(result, "operation.operation").Entry] && !old(ents(L))[ptr(result, "operation.operation").Entry]
+//@   ensures result1 == nil ==> opKind(ptr(result, "operation.operation").Entry) == "PUTALL"
+//@   ensures result1 == nil ==> (forall j Int :: 0 <= j && j < len(V) ==> (exists d Int :: 0 <= d && d < opNDocs(ptr(result, "operation.operation").Entry) && opDocKey(ptr(result, "operation.operation").Entry, d) == keyOf(V[j])))
+//@   ensures result1 == nil ==> (forall d Int :: 0 <= d && d < opNDocs(ptr(result, "operation.operation").Entry) ==> (exists w Int :: 0 <= w && w < len(V) && keyOf(V[w]) == opDocKey(ptr(result, "operation.operation").Entry, d) && opDocVal(ptr(result, "operation.operation").Entry, d) == encDoc(V[w]) && (forall j Int :: w < j && j < len(V) ==> keyOf(V[j]) != keyOf(V[w]))))
+//@   ensures result1 == nil ==> (forall p Int, q Int :: 0 <= p && p < q && q < opNDocs(ptr(result, "operation.operation").Entry) ==> opDocKey(ptr(result, "operation.operation").Entry, p) != opDocKey(ptr(result, "operation.operation").Entry, q))
+//@   modifies *
